@@ -14,6 +14,7 @@ from collections import defaultdict, Counter
 
 from . import arms as A
 from . import eff as E
+from . import ctl as CT
 from .facts import MissingAnchor
 
 V = os.path.dirname(os.path.dirname(os.path.abspath(__file__)))
@@ -88,8 +89,18 @@ def extract(g, spec):
     if kind == 'fnsum':
         # whole-body summary of each listed function: stores to *self, calls, error variants
         summ = A.ArmSummarizer(g)
-        for path in spec['fns']:
+        paths = list(spec['fns'])
+        for path in paths:
             f2 = g.fn(path)
+            if spec.get('reads'):
+                # F-core: the private helpers a listed function delegates to get their own row (write -> write_ranges)
+                for _b, t_ in f2.calls():
+                    if 'ptr' in t_['f'] or t_['f'].get('trait'):
+                        continue
+                    for tgt in g.callee_targets(t_['f']):
+                        cf = g.fns[tgt]
+                        if cf.vis != 'pub' and cf.kind != 'Closure' and tgt not in paths and cf.file == f2.file:
+                            paths.append(tgt)
             cnt = Counter() if spec.get('counts') else None
             w, c, e = summ.summarize_blocks(f2, f2.reach, 1, depth=spec.get('depth', 2), count=cnt)
             out[path] = {'writes': sorted(w), 'calls': sorted(c), 'errs': sorted(e)}
@@ -97,6 +108,10 @@ def extract(g, spec):
                 out[path]['calls'] = ['%s*%d' % kv for kv in sorted(cnt.items())]
             if spec.get('reads'):
                 out[path]['reads'] = sorted(summ.param_field_reads(f2, f2.reach))
+            # control structure: which conditions guard each call / store / error, and what loops carry
+            out[path]['ctl'] = CT.ctl_fingerprint(f2, summ)
+            out[path]['carried'] = CT.carried_locals(f2)
+            out[path]['flow'] = CT.flow_fingerprint(f2, summ)
         return out
     ef = E.Eff(g, extra_atoms=spec.get('extra_atoms'))
     if kind == 'fneff':
@@ -244,6 +259,24 @@ def load_table(spec_id):
     return json.load(open(p))
 
 
+def row_diff(got, ref):
+    """readable difference between an extracted row and its reviewed reference"""
+    if isinstance(got, dict) and isinstance(ref, dict):
+        parts = []
+        for k in sorted(set(got) | set(ref)):
+            a, b = got.get(k), ref.get(k)
+            if a == b:
+                continue
+            if isinstance(a, list) and isinstance(b, list) and all(isinstance(x, str) for x in a + b):
+                only_code = [x for x in a if x not in b]
+                only_ref = [x for x in b if x not in a]
+                parts.append('%s: only in code %s; only in reviewed table %s' % (k, json.dumps(only_code), json.dumps(only_ref)))
+            else:
+                parts.append('%s: code %s != reviewed %s' % (k, json.dumps(a), json.dumps(b)))
+        return '; '.join(parts)
+    return 'code %s != reviewed %s' % (json.dumps(got), json.dumps(ref))
+
+
 def run_spec(rep, g, spec, rule):
     """compare extraction with the frozen table: one obligation per row"""
     table = load_table(spec['id'])
@@ -260,8 +293,7 @@ def run_spec(rep, g, spec, rule):
         elif name not in got:
             rep.bad(rule, key, 'the reviewed table %s has a row for %s but the code has no arm for it' % (spec['id'], name), loc)
         elif got[name] != rows[name]:
-            rep.bad(rule, key, '%s arm %s: code %s != reviewed %s' % (spec.get('fn', 'fn').split('::')[-1], name,
-                                                                   json.dumps(got[name]), json.dumps(rows[name])), loc)
+            rep.bad(rule, key, '%s arm %s: %s' % (spec.get('fn', 'fn').split('::')[-1], name, row_diff(got[name], rows[name])), loc)
         else:
             rep.ok(rule, key, json.dumps(rows[name])[:160], loc, why='equals the reviewed row of tables/spec/%s.json' % spec['id'])
     return got
